@@ -110,7 +110,8 @@ def run(ctx):
         ok = SC.judge(ctx, t, rng, select, findings.sqlite_semantic_triggers,
                       "finding-lane" if finding_lane else "clean", extra_case=case_extra, profile=p)
         # metamorphic: full parenthesisation selects the same ids
-        if ok and i % 5 == 0:
+        clock = any(n[0] == "call" and n[1] == "now" for n in T.walk(t))   # two runs = two moments
+        if ok and i % 5 == 0 and not clock:
             rows = __import__("vpmon.gen.rows", fromlist=["x"]).rows_for(scalar.columns_of(t), rng, 120)
             try:
                 a = select(to_text(t, "min"), rows)
